@@ -16,7 +16,9 @@ RULE = ('Schematic(obj, placeAndRoute=True) built in a child process (20 s alarm
         'with their optional/multiple ports connected: Add ci/co, Abs inverted, Reg enable/reset, ShiftRight arithmetic, DelayLine, '
         'Comparator, Swap, counters; several outputs of one block converging on one sink with another reader created later and a '
         'register loop behind; children instantiated in data-flow, reversed or random order; chains, '
-        'fan-out, register feedback incl. q->own d, edges spanning several columns, one wire on two pins); the object graph '
+        'fan-out, register feedback incl. q->own d, edges spanning several columns, one wire on two pins), (d) size class: chains of '
+        '400/800 (thorough up to 900) instances created output-first, input-first or in random order, drawn under the interpreter '
+        'default recursion limit; the object graph '
         '(objs, nets, symbol_matrix) is judged offline. non-trivial = the drawing needed a pass-through or feedback marker, or has '
         'fan-out > 1, or >= 8 instances; distinct by content hash of the case')
 SHARDS = {'quick': 1, 'thorough': 16}
@@ -98,6 +100,13 @@ def workload(tier, seed, shard):
                     pick += [cs[len(cs) // 3], cs[2 * len(cs) // 3]]
                 for c in pick[:(2 if len(sigs) > 2 or tier == 'quick' else 4)]:
                     cases.append(dict(type='child', src=src, block=r.name, cfg=c))
+    # size class: long chains must still yield a schematic, whatever the order in which the children were created
+    chains = [(400, 'output_first', 'Not'), (800, 'output_first', 'Not'), (800, 'input_first', 'Buf'), (400, 'random', 'Reg')]
+    if tier == 'thorough':
+        chains += [(n, o, c) for n in (200, 600, 900) for o in ('output_first', 'input_first', 'random') for c in ('Not', 'HLeaf')]
+        chains += [(800, 'random', 'Reg'), (400, 'input_first', 'HLeaf'), (800, 'output_first', 'Reg')]
+    for k, (n, o, c) in enumerate(chains):
+        cases.append(dict(type='chain', n=n, order=o, cls=c, w=1 if k % 2 == 0 else 4, order_seed=seed * 1000 + k))
     for i in range(N_NET[tier]):
         rnd = rng(seed, 'C18net', i)
         cases.append(dict(type='net', plan=c18net.gen_netlist(rnd, big=(i % 5 == 4))))
@@ -187,12 +196,15 @@ def run_children(cases, d, limit_s=LIMIT_S, deadline=None):
 def describe(case):
     if case['type'] in ('block', 'child'):
         return '%s%s%r' % ('child ' if case['type'] == 'child' else '', case['block'], tuple(case['cfg']) if isinstance(case['cfg'], (list, tuple)) else case['cfg'])
+    if case['type'] == 'chain':
+        return 'chain of %d %s created %s' % (case['n'], case['cls'], case['order'])
     return 'netlist(%d nodes)' % len(case['plan']['nodes'])
 
 
 def judge(run, case, res):
     run.ev()
-    cls = case['block'] if case['type'] == 'block' else ('child:' + case['block'] if case['type'] == 'child' else 'netlist')
+    cls = case['block'] if case['type'] == 'block' else ('child:' + case['block'] if case['type'] == 'child' else
+                                                         'chain' if case['type'] == 'chain' else 'netlist')
     kase = dict((k, v) for k, v in case.items() if k != 'idx')
     if 'harness_error' in res:
         run.inconclusive.append('harness error on %s: %s' % (describe(case), res['harness_error'][:300]))
@@ -231,6 +243,9 @@ def judge(run, case, res):
     if feats.get('creation_order_permuted'):
         run.count('netlists_with_permuted_creation_order')
     run.count('sch_route_segments_judged', st.get('route_segments_judged', 0))
+    if case['type'] == 'chain':
+        run.count('long_chains_drawn')
+        run.count('long_chains_drawn_%d_%s' % (case['n'], case['order']))
     if case['type'] == 'child':
         run.count('library_blocks_drawn_as_child')
     run.count('sch_pin_positions_judged', st.get('pin_positions_judged', 0))
